@@ -52,6 +52,8 @@ void progress(uint64_t sub) {
     put(buf, n);
 }
 uint64_t current_idx() { return g_idx; }
+static bool g_serving = false;
+void publish_plan(const MVal& plan) { if (g_serving) putline("P " + plan.dump() + "\n"); }
 
 static void on_terminate() {
     char buf[80]; size_t n = 0;
@@ -157,6 +159,7 @@ int worker_main(int argc, char** argv, const Engine& eng) {
         return 0;
     }
     if (mode == "serve") {
+        g_serving = true;
         std::string line;
         Stats st;
         while (std::getline(std::cin, line)) {
@@ -172,6 +175,7 @@ int worker_main(int argc, char** argv, const Engine& eng) {
         return 0;
     }
     if (mode == "replay") {
+        g_serving = true;
         if (argc < 3) return 2;
         std::ifstream f(argv[2]);
         std::stringstream ss; ss << f.rdbuf();
